@@ -119,7 +119,11 @@ RULE = ("random gridded forecasts of shape (1..40)x(1..8), rates 10^U(-12,3) (cl
         "simulations, the package-level alias csep.poisson_evaluations, UCERF3Catalog (big-endian structured events) as the observed "
         "catalog in 12% of the cases, zero rates written -0.0, subnormal rates in empty bins, more than 2^16 target bins in one fixed "
         "case, the caller's arrays (constructor array, event array, injected numbers) byte-identical after every call, numpy told to "
-        "raise on divide / invalid for clean inputs (all rates positive and normal, non-empty catalog). A case is non-trivial when "
+        "raise on divide / invalid for clean inputs (all rates positive and normal, non-empty catalog); round 7: observed catalogs of a "
+        "user subclass overriding the BASIC DATA ACCESSORS get_longitudes / get_latitudes / get_magnitudes consistently (14%; overrides of "
+        "derived methods such as spatial_counts() are outside the property), copy / deepcopy / pickle images of forecast and catalog "
+        "before use, a rejected call (random_numbers one column too wide) on the same objects first, a small decimal context around "
+        "the calls. A case is non-trivial when "
         "some bin holds >= 2 events and N_obs != N_fore; distinct by (rate bits, counts).")
 
 MODES = ("L", "CL", "S", "M")
@@ -353,6 +357,14 @@ def _gen_spec(rng, tier):
     # round 6: how the arguments are passed, which public catalog class carries the events
     spec["conv"] = rng.choice(CALL_CONVENTIONS)
     spec["cat_class"] = "ucerf3" if rng.random() < 0.12 else "csep"
+    # round 7: (j) user subclasses of the catalog class, (h) copies / pickles of forecast and catalog before use, (i) a rejected call
+    # on the same objects before the judged ones, (k) a small decimal context around the calls
+    r7 = rng.random()
+    if r7 < 0.14:
+        spec["cat_class"] = "user-neg"
+    spec["copies"] = [rng.choice(COPY_FORMS), rng.choice(COPY_FORMS)]
+    spec["pre_reject"] = rng.random() < 0.25
+    spec["decimal_prec"] = rng.choice([None, None, None, 2, 3, 6])
     spec["cat_region"] = rng.choice([None] * 10 + ["none", "none", "spatial-only", "spatial-only", "spatial-perm", "spatial-perm",
                                                    "spatial-superset", "sm-othermags"])
     spec["dtype"] = dtype
@@ -541,10 +553,21 @@ def _build(spec):
     elif cr_ == "sm-othermags":
         # a space-magnitude region of its own: same cells, other magnitude edges (shifted by half a bin, one edge more)
         cat_region = CartesianGrid2D.from_origins(origins, dh=dh, magnitudes=[spec["m0"] + spec["dm"] * (k - 0.5) for k in range(nm + 1)])
-    if spec.get("cat_class") == "ucerf3":
+    cc_ = spec.get("cat_class")
+    _BUILD_INFO["skip"] = []
+    if cc_ == "ucerf3":
         cat = _ucerf3_catalog(ev, cat_region)
+    elif cc_ == "user-neg":
+        cat = _user_classes()["UserNegCatalog"](data=[(a, b, -c, -d, e, -f) for a, b, c, d, e, f in ev], region=cat_region, name="catalog")
     else:
         cat = CSEPCatalog(data=ev, region=cat_region, name="catalog")
+    cf = spec.get("copies") or [None, None]
+    if cf[0]:
+        fore = _copy_form(fore, cf[0], what="forecast")
+        if cf[0] != "copy":
+            _BUILD_INFO["given"] = None
+    if cf[1]:
+        cat = _copy_form(cat, cf[1], what="catalog")
     _BUILD_INFO["duplicates"] = ndup
     return fore, cat, data, cnt
 
@@ -618,6 +641,58 @@ def _ucerf3_catalog(ev, region):
     return UCERF3Catalog(data=arr, region=region, name="catalog")
 
 
+_USER = {}
+
+
+def _user_classes():
+    """round 7 (j): catalogs of a USER subclass that overrides the BASIC DATA ACCESSORS consistently - the accessor is the source of
+    truth (the repo's own tests use such a MockCatalog; the library is documented to read event data through them). `UserNegCatalog`
+    stores longitude, latitude and magnitude NEGATED and hands them out through get_longitudes / get_latitudes / get_magnitudes
+    (exactly invertible, so edge events stay where they are). Module-level class (picklable). Overrides of DERIVED public methods
+    (spatial_counts, spatial_event_probability, ...) are deliberately NOT a class: which derived method the library calls internally
+    is not part of the property (coordinator's decision, round 7: seeded C16_15 / C16_H5)."""
+    if not _USER:
+        from csep.core.catalogs import CSEPCatalog
+
+        class UserNegCatalog(CSEPCatalog):
+            def get_magnitudes(self):
+                return -self.catalog["magnitude"]
+
+            def get_longitudes(self):
+                return -self.catalog["longitude"]
+
+            def get_latitudes(self):
+                return -self.catalog["latitude"]
+
+        for c in (UserNegCatalog,):
+            c.__module__, c.__qualname__ = __name__, c.__name__
+            globals()[c.__name__] = c
+            _USER[c.__name__] = c
+    return _USER
+
+
+COPY_FORMS = [None, None, None, "copy", "deepcopy", "pickle"]
+_COPY_UNSUPPORTED = set()
+
+
+def _copy_form(obj, form, run=None, what=""):
+    """round 7 (h): the object is replaced by a copy of itself BEFORE use; where the unchanged tree cannot copy that kind of object in
+    that form the original is used and the form is counted as unsupported"""
+    import copy
+    import pickle
+    if form is None:
+        return obj
+    try:
+        if form == "copy":
+            return copy.copy(obj)
+        if form == "deepcopy":
+            return copy.deepcopy(obj)
+        return pickle.loads(pickle.dumps(obj))
+    except Exception:
+        _COPY_UNSUPPORTED.add(f"{what}:{type(obj).__name__}:{form}")
+        return obj
+
+
 class _Owned:
     """arrays the CALLER owns and hands to the library (the array given to the forecast's constructor, the catalog's event array,
     the injected random numbers): no evaluation documents an in-place change of them, so after every call they must hold the same
@@ -668,6 +743,19 @@ def _scribble(res, fore, cat):
                 a[...] = a.dtype.type(0) if a.dtype.kind in "biu" else -7.0
         except Exception:
             pass
+
+
+@contextlib.contextmanager
+def _decimal_ctx(prec):
+    """round 7 (k): the caller's decimal context has a small precision while the library runs (nothing the tests compute may depend on
+    it)"""
+    import decimal
+    if not prec:
+        yield
+        return
+    with decimal.localcontext() as ctx:
+        ctx.prec = prec
+        yield
 
 
 def _given_array(fore):
@@ -830,6 +918,25 @@ def _eval_case(run, drv, pending, spec, tag="gen"):
         run.count("catalog-with-duplicate-events")
         run.count("duplicate-events", _BUILD_INFO["duplicates"])
     evtxt = ",".join(f"{e[0]}:{e[1]}" for e in spec["events"]) if spec["events"] else "-"
+    skip = _BUILD_INFO.get("skip") or []
+    skipset = set(skip)
+    cnt_target = cnt.copy()
+    for k_ in skip:
+        cnt_target[spec["events"][k_][0], spec["events"][k_][1]] -= 1
+    run.count(f"copy-forecast-{(spec.get('copies') or [None, None])[0]}")
+    run.count(f"copy-catalog-{(spec.get('copies') or [None, None])[1]}")
+    if spec.get("decimal_prec"):
+        run.count("decimal-context-small-precision")
+    if spec.get("pre_reject") and len(spec["events"]) > 0 and spec.get("cat_region") in (None, "spatial-only") and not skip:
+        # round 7 (i): a call the library REJECTS on the very same objects first (random_numbers one column too wide: the count
+        # assertion), caught - the judged calls that follow must be what they are on fresh objects
+        m0_ = ("CL", "S", "M")[spec["rn_seed"] % 3]
+        try:
+            with _capped_uniforms(2000), numpy.errstate(all="ignore"):
+                tests[m0_](fore, cat, num_simulations=2, random_numbers=numpy.random.default_rng(spec["rn_seed"]).random((2, len(spec["events"]) + 1)))
+            run.count("pre-reject-accepted")
+        except Exception:
+            run.count(f"pre-reject-raised-{m0_}")
     for mode, how in calls:
         if mode == "BOUND":
             # side effect of the L / CL tests on a catalog without a space-magnitude region: the forecast's region is bound
@@ -848,8 +955,9 @@ def _eval_case(run, drv, pending, spec, tag="gen"):
                 continue
             # totals / per-event rates / the per-cell map are read BEFORE the re-scaling too (and again at the end): whatever
             # a forecast object remembers from these reads must not survive scale()
-            _cells_check(run, drv, pending, case, fore, cat, data, cnt)
-            _per_event_check(run, drv, pending, case, spec, fore, cat, data, cnt)
+            if not skip:
+                _cells_check(run, drv, pending, case, fore, cat, data, cnt)
+                _per_event_check(run, drv, pending, case, spec, fore, cat, data, cnt)
             if isinstance(how, (list, tuple)):
                 data = _apply_factor(fore, held, how)
                 run.count(f"rescaled-after-tests-{how[0]}")
@@ -862,11 +970,19 @@ def _eval_case(run, drv, pending, spec, tag="gen"):
                 return
             continue
         rates1d, obs1d, norm = _arrays(mode, data, cnt)
+        ev_txt_mode = evtxt
+        if mode == "S" and skip:
+            # the user's catalog class grids only its target events spatially (spatial_counts() overridden): that array is what
+            # the S-test is about - the accessor is the source of truth
+            obs1d = cnt_target.sum(axis=1)
+            kept = [e for k_, e in enumerate(spec["events"]) if k_ not in skipset]
+            ev_txt_mode = ",".join(f"{e[0]}:{e[1]}" for e in kept) if kept else "-"
+        n = int(numpy.sum(obs1d))
         sims, rn, draws_txt, nsim_call, stream, owned = [], None, "-", nsim, None, None
         try:
             # round 6: no call can run away - with injected numbers the code draws nothing, on the default path one block per
             # simulation (cap = 20 x that + slack, in CALLS of the generator)
-            with _capture(pe) as rec, _capped_uniforms(20 * (max(nsim, 2) + 135) + 200):
+            with _capture(pe) as rec, _capped_uniforms(20 * (max(nsim, 2) + 135) + 200), _decimal_ctx(spec.get("decimal_prec")):
                 if how == "inject":
                     # round 4: `num_simulations` is an argument of its own — in one call of eight the injected array has
                     # 1-2 rows MORE than simulations asked; the first `num_simulations` rows are the ones to be used
@@ -1013,7 +1129,8 @@ def _eval_case(run, drv, pending, spec, tag="gen"):
                 run.oracle_failure(case, f"{mode}-test ({how}): quantile {float(res.quantile)!r} is not {kq}/{len(td)}")
         # correspondence with the Lean Float model
         simtxt = ";".join(",".join(str(int(c)) for c in s) for s in sims) if sims else "-"
-        i = drv.ask(f"c05_mode {mode} {_rows(data, _bits)} {_rows(cnt, lambda c: str(int(c)))} {simtxt}")
+        cnt_mode = cnt_target if (mode == "S" and skip) else cnt
+        i = drv.ask(f"c05_mode {mode} {_rows(data, _bits)} {_rows(cnt_mode, lambda c: str(int(c)))} {simtxt}")
         pending.append((case, mode, how, i, impl_vals, scales, None))
         # round 6 (owners): the Soft64 layer of the statistic (Properties/C05_Rounding.lean bounds ITS distance from the real value):
         # one rounded product per target bin, numpy's pairwise sums, two rounded subtractions - from the library values
@@ -1041,7 +1158,7 @@ def _eval_case(run, drv, pending, spec, tag="gen"):
             cost = len(rates1d) * max(1, rn.shape[1]) * rn.shape[0]
             if cost <= CHAIN_BUDGET or spec["rn_seed"] % 20 == 0:
                 rowtxt = ";".join(",".join(_bits(x) for x in row) for row in rn) if rn.shape[1] else "-"
-                i = drv.ask(f"c05_public {mode} {nm} {_rows(data, _bits)} {evtxt} {draws_txt} {nsim_call} {rowtxt}")
+                i = drv.ask(f"c05_public {mode} {nm} {_rows(data, _bits)} {ev_txt_mode} {draws_txt} {nsim_call} {rowtxt}")
                 gap = min([abs(v - obs) for v in td if not math.isinf(v - obs)] or [math.inf])
                 pending.append((case, mode, how + "/chain", i, impl_vals, scales,
                                 dict(sims=[[int(c) for c in s] for s in sims], quantile=float(res.quantile), nsim=len(td),
@@ -1051,7 +1168,7 @@ def _eval_case(run, drv, pending, spec, tag="gen"):
                 run.count("chain-skipped-budget")
         if stream is not None and len(rates1d) * max(1, len(stream)) <= CHAIN_BUDGET:
             sttxt = ",".join(_bits(x) for x in stream) if len(stream) else "-"
-            i = drv.ask(f"c05_stream {mode} {nm} {_rows(data, _bits)} {evtxt} {draws_txt if mode == 'L' else '-'} {nsim_call} {sttxt}")
+            i = drv.ask(f"c05_stream {mode} {nm} {_rows(data, _bits)} {ev_txt_mode} {draws_txt if mode == 'L' else '-'} {nsim_call} {sttxt}")
             gap = min([abs(v - obs) for v in td if not math.isinf(v - obs)] or [math.inf])
             pending.append((case, mode, how + "/stream", i, impl_vals, scales,
                             dict(sims=[[int(c) for c in s] for s in sims], quantile=float(res.quantile), nsim=len(td),
@@ -1059,7 +1176,9 @@ def _eval_case(run, drv, pending, spec, tag="gen"):
             run.count("stream-compared")
     if creg is None and spec["rn_seed"] % 7 == 0 and data.size <= 400:
         _array_level(run, drv, pending, case, spec, data, cnt, g)
-    if getattr(cat, "region", None) is not None and getattr(cat.region, "magnitudes", None) is not None and n <= 5000:
+    if skip:
+        return              # the per-event view and the per-cell map mix the user's two conventions by design of that class
+    if getattr(cat, "region", None) is not None and getattr(cat.region, "magnitudes", None) is not None and len(spec["events"]) <= 5000:
         _per_event_check(run, drv, pending, case, spec, fore, cat, data, cnt)
     if creg != "none" or getattr(cat, "region", None) is not None:   # the per-cell map needs the catalog's spatial counts
         _cells_check(run, drv, pending, case, fore, cat, data, cnt)
@@ -1335,6 +1454,7 @@ def run(run, rng, tier):
                            "lower magnitude edge; never inside the binning routine's round-off band just below an edge (~1e-14 "
                            "here; which bin such a point gets is C01/C02's subject)")
     run.assumptions.append("injected random numbers lie in [0, 1)")
+    run.extra["copy_forms_unsupported_by_the_tree_under_test"] = sorted(_COPY_UNSUPPORTED)
 
 
 def _corpus_specs():
